@@ -85,6 +85,8 @@ class VLoop(asyncio.SelectorEventLoop):
             if not self._ready:
                 nxt = self._next_timer()
                 if nxt is None:
+                    if self._until is not None and self._vtime < self._until and getattr(self, '_advance_to_until', False):
+                        self._vtime = self._until
                     self._stopping = True
                     return
                 if self._until is not None and nxt > self._until:
@@ -123,7 +125,12 @@ class VLoop(asyncio.SelectorEventLoop):
             self._mode = None
 
     def run_for(self, dt: float, max_iters: int = 200000):
-        self.run_until_idle(max_iters=max_iters, until=self._vtime + dt)
+        """Let exactly ``dt`` of virtual time pass (running whatever becomes due)."""
+        self._advance_to_until = True
+        try:
+            self.run_until_idle(max_iters=max_iters, until=self._vtime + dt)
+        finally:
+            self._advance_to_until = False
 
     def run_coro(self, coro, timeout_virtual: float = 1e7, max_iters: int = 2000000):
         """Run a coroutine to completion under virtual time."""
